@@ -27,10 +27,27 @@ type diffCase struct {
 	New vt.B `json:"new"`
 }
 
+// namesFor picks the two file names from a hash of the texts (a replayed case uses the same names): mostly the plain
+// "old"/"new", sometimes names with blanks, tabs, non-ASCII letters, header look-alikes or nothing at all.
+var namePairs = [][2]string{{"old", "new"}, {"old", "new"}, {"old", "new"}, {"a b", "c\td"}, {"", ""}, {"--- x", "+++ y"}, {"é/日本.txt", "é/日本.txt"}, {"@@ -1 +1 @@", "diff a b"}}
+
+func namesFor(c diffCase) (string, string) {
+	h := uint32(2166136261)
+	for _, b := range c.Old {
+		h = (h ^ uint32(b)) * 16777619
+	}
+	for _, b := range c.New {
+		h = (h ^ uint32(b) ^ 0x55) * 16777619
+	}
+	p := namePairs[h%uint32(len(namePairs))]
+	return p[0], p[1]
+}
+
 func checkDiff(c diffCase) *vt.Fail {
+	oldName, newName := namesFor(c)
 	var out []byte
 	if f := vt.Guard("diff-panic", func() *vt.Fail {
-		out = diff.Diff("old", append([]byte(nil), c.Old...), "new", append([]byte(nil), c.New...))
+		out = diff.Diff(oldName, append([]byte(nil), c.Old...), newName, append([]byte(nil), c.New...))
 		return nil
 	}); f != nil {
 		return f
@@ -43,8 +60,8 @@ func checkDiff(c diffCase) *vt.Fail {
 	if f := checkAliased(c, out); f != nil {
 		return f
 	}
-	if err := Verify(out, c.Old, c.New, "old", "new"); err != nil {
-		return vt.Failf("bad-diff", "Diff(%q, %q) = %q: %v", c.Old, c.New, out, err)
+	if err := Verify(out, c.Old, c.New, oldName, newName); err != nil {
+		return vt.Failf("bad-diff", "Diff(%q: %q, %q: %q) = %q: %v", oldName, c.Old, newName, c.New, out, err)
 	}
 	return nil
 }
@@ -59,7 +76,8 @@ func checkAliased(c diffCase, want []byte) *vt.Fail {
 	buf = append(buf, "0123456789abcdef"...)
 	old, new := buf[:len(c.Old)], buf[len(c.Old):len(c.Old)+len(c.New)]
 	var out []byte
-	if f := vt.Guard("diff-panic", func() *vt.Fail { out = diff.Diff("old", old, "new", new); return nil }); f != nil {
+	oldName, newName := namesFor(c)
+	if f := vt.Guard("diff-panic", func() *vt.Fail { out = diff.Diff(oldName, old, newName, new); return nil }); f != nil {
 		return f
 	}
 	if !bytes.Equal(buf[:len(c.Old)], c.Old) || !bytes.Equal(buf[len(c.Old):len(c.Old)+len(c.New)], c.New) || string(buf[len(c.Old)+len(c.New):]) != "0123456789abcdef" {
